@@ -234,23 +234,52 @@ def looksDecimal (b : Bytes) : Bool :=
       mant && !ex.isEmpty && ex.all isDig
     else false
 
-/-- INCRBYFLOAT in checker mode: the arithmetic and the formatting are the implementation's (IEEE double, `FormatFloat`);
-    the model decides error/non-error and stores what was reported. -/
+/-- IEEE-754 double: biased exponent field -/
+def flExp (bits : UInt64) : Nat := ((bits >>> 52) &&& 0x7ff).toNat
+
+/-- a reply the implementation cannot have produced when it agrees with the model (checker mode: the observed reply was refused) -/
+def rejectObs (obs : Option Reply) (why : String) : Reply :=
+  match obs with
+  | some (.err _) => .simple (ofStr ("MODEL-REJECTS " ++ why))
+  | _ => .err (ofStr ("ERR MODEL-REJECTS " ++ why))
+
+/-- a stored decimal whose magnitude may be within a factor 2^-3 of the double range: ≥ 300 integer digits or a decimal exponent ≥ 300
+    (coarse on purpose: it only widens the cases in which an overflow error is admitted) -/
+def hugeDecimal (b : Bytes) : Bool :=
+  let b := match b with | c :: r => if c == 45 || c == 43 then r else b | [] => []
+  let isDig := fun (c : UInt8) => 48 ≤ c && c ≤ 57
+  let ip := b.takeWhile isDig
+  let rest := (b.dropWhile isDig)
+  let rest := match rest with | c :: r => if c == 46 then r.dropWhile isDig else rest | [] => []
+  let ex := match rest with
+    | c :: e => if c == 101 || c == 69 then (match e with | s :: r => if s == 43 then r else if s == 45 then [] else e | [] => []) else []
+    | [] => []
+  ip.length ≥ 300 || ex.length ≥ 4 || (ex.foldl (fun n c => n * 10 + (c.toNat - 48)) 0) + ip.length ≥ 300
+
+/-- INCRBYFLOAT in checker mode: the arithmetic and the formatting are the implementation's (IEEE double, `FormatFloat`).  The model
+    decides: the increment must be a finite float (`strconv.ParseFloat` bits shipped by the harness), the stored value must read as a
+    decimal number; then the implementation's sum is adopted if it is a finite decimal.  An overflow error is admitted only when the
+    increment is at least 2^1022 in magnitude or the stored value is `hugeDecimal` (the sum can then leave the double range). -/
 def cmdIncrByFloat : Cmd := fun env db args =>
   match args with
   | [_, k, _d] =>
     match env.fl 2 with
     | none => (errFloat, db)
-    | some _ =>
+    | some bits =>
       let (db, _) := checkTTL db env.now k
       match getStr db k with
       | some none => (wrongType, db)
       | old =>
         let curOk := match old.bind id with | none => true | some b => looksDecimal b
         if !curOk then (errFloat, db)
+        else if flExp bits == 2047 then (.err (ofStr "ERR increment would produce NaN or Infinity"), db)
         else match env.obs with
-          | some (.bulk (some r)) => (bulk r, db.setVal k (.str r))
-          | _ => (bulk [], db)
+          | some (.bulk (some r)) =>
+            if looksDecimal r then (bulk r, db.setVal k (.str r)) else (rejectObs env.obs "INCRBYFLOAT result is not a finite decimal", db)
+          | some (.err e) =>
+            let curHuge := match old.bind id with | none => false | some b => hugeDecimal b
+            if (flExp bits ≥ 2045 || curHuge) && !isWrongType e then (.err e, db) else (rejectObs env.obs "INCRBYFLOAT must succeed", db)
+          | _ => (rejectObs env.obs "INCRBYFLOAT answers a bulk string", db)
   | _ => (errArgs, db)
 
 /-! ### keys.go -/
